@@ -30,6 +30,33 @@ CLAIMED = {
  "C14": dict(engine="store", technique="TLC model checking of the fleet kind (M_C14_*) + TLC trace validation against the reference activation schedule (T_C14_Avail, T_C14_WaitBound, T_C14_Order)",
    text="Fleet batches: every item becomes available exactly one round trip after the first activation (timer period or capacity trigger) at or after its loading, in loading order, never later than delay + round trip; judged on every recorded event of Fleet edges / FleetStore incl. zero transit, loads during trips and in the departure instant.",
    ref="5 C14"),
+ "C03": dict(engine="factory", technique="TLC model checking of Factory.tla (all same-instant interleavings; F_C03_OnePlace/Counts/Quiescent) + TLC trace validation of recorded real factory runs (Trace_Factory.tla, T_C03_*)",
+   text="Item conservation across the factory: in the design model every created item has exactly one place in every reachable state of every enumerated configuration under every same-instant ordering; for the implementation, every recorded run of a real factory (systematic families + seeded random configurations incl. fan-in/out, fleets, LIFO, combiner/splitter, conveyors) is folded into a ledger by TLC and compared at every end of instant with the independently observed contents of every edge, pallet and node reference and with the statistics counters.",
+   ref="5 C03, 3.5, 4.4"),
+ "C08": dict(engine="factory", technique="TLC model checking of Factory.tla (F_C08_Cap) + TLC trace validation (T_C08_Cap, T_C08_Offer, T_C08_DrawOnce, T_C08_DrawnAtPull, T_C08_OfferedWhenDue) on recorded real runs with harness-supplied, logged delay callables",
+   text="Machine holds at most work_capacity items; every unit of work (machine item, splitter pallet, combiner pallet) is first offered downstream exactly at pull/draw time + the delay drawn once for it; judged on every event of every recorded real run and, for capacity, on every interleaving of the design model.",
+   ref="5 C08"),
+ "C09": dict(engine="factory", technique="TLC model checking of Factory.tla (F_C09_*) + TLC trace validation (T_C09_BlockingNoDiscard, T_C09_NonBlockingNow, T_C09_Decision, T_C09_DiscardByOne)",
+   text="Blocking nodes never discard; non-blocking nodes hold no finished item at the end of the instant it became ready, drop only when no permitted out-edge definitely had free unreserved room, and count each drop once.",
+   ref="5 C09"),
+ "C10": dict(engine="factory", technique="TLC model checking of Factory.tla over ALL same-instant interleavings (F_C10_*, F_C04_EOI) + TLC trace validation at every recorded end of instant (T_C10_GrantedUsed, T_C10_NoOrphan, T_C10_ChooseOne, T_C10_TakeInput, T_C10_PushOutput)",
+   text="Nothing stranded: the schedule quantifier is covered at design level by exploring every ordering of same-instant actions; on the implementation every end-of-instant snapshot (live tokens with trigger flags, edge contents, ledger of held units) is judged: no granted-unused reservation, no orphan token of a process that moved on or ended, no free worker next to an available unreserved item, no finished item next to free room.",
+   ref="5 C10, 3.1"),
+ "C15": dict(engine="factory", technique="TLC trace validation of recorded real runs (T_C15_FirstAvail on the trigger flags of the whole batch at commit, T_C15_InPolicy / T_C15_OutPolicy / T_C15_PutWhereOffered per routed item, T_C15_Recorded against stats); Factory.tla models FIRST_AVAILABLE / ROUND_ROBIN / constant selection",
+   text="ROUND_ROBIN, constant, scripted callable (consulted once per item, logged by the harness) and FIRST_AVAILABLE (lowest-index triggered token of the batch at the instant of commit) are checked per routed item on every recorded run; the recorded selection history is compared with the routing in the ledger.",
+   ref="5 C15"),
+ "C16": dict(engine="factory", technique="TLC trace validation (T_C16_Recipe, T_C16_SplitterEmits, T_C16_SplitterDone) on recorded runs of real combiner/splitter lines",
+   text="Every pallet put by a combiner was taken from in-edge 0 and carries exactly target[i] items taken from in-edge i, nothing else; a splitter puts exactly the contents of the pallet it pulled, each once, then the pallet, before its next pull. Design-level model of combiner/splitter is a growth item; the claim rests on trace validation.",
+   ref="5 C16", category="model_checking"),
+ "C17": dict(engine="factory", technique="TLC trace validation: ground-truth state-time integrals folded in TLA+ from the call log vs the finalised statistics (T_C17_NonNeg, T_C17_SumT, T_C17_Setup, T_C17_Truth)",
+   text="After finalisation at T (round, non-round, before the first item) the per-state totals are non-negative, partition T (machine: both groups and the occupancy histogram), charge the set-up period, and equal the time the ledger says the node was processing / blocked / idle. Exact on the dyadic time grid.",
+   ref="5 C17"),
+ "C18": dict(engine="factory", technique="TLC trace validation (T_C18_Counters, T_C18_CounterEvents, T_C18_AvgOccupancy with the occupancy integral computed in TLA+, T_C18_CycleTime, T_C18_Monotone, T_C18_CreationStamp)",
+   text="Counters equal ledger counts, time-averaged occupancy x T x 1000 equals 1000 x the exact integral of the ledger occupancy within 1 unit, sink cycle time equals the sum of reception minus stamped creation, timestamps are ordered; on every recorded run incl. fleet and conveyor edges.",
+   ref="5 C18"),
+ "C20": dict(engine="factory", technique="TLC model checking of Factory.tla with an actions-per-instant bound (F_C20_FiniteInstant) + TLC judgement of the outcome of every enumerated valid / invalid configuration run on the real classes (T_C20_NoCrash, T_C20_FiniteInstant, T_C20_Rejects)",
+   text="Every enumerated valid configuration runs to T without exception and with a bounded number of kernel events per instant; every configuration of the six listed invalid classes is rejected at construction or by an error during the run. One recorded known finding (conveyor can_put/can_get).",
+   ref="5 C20"),
 }
 NOTE = ("trusted: TLC 1.8, CommunityModules Json/IOUtils, SimPy kernel semantics (modelled, not verified), the ledger fold of the "
         "trace specifications, CPython; small-scope bounds for leg A/B as listed in the evidence; integer tick times")
@@ -62,6 +89,8 @@ m = {
  "engines": [
    {"name": "store", "path": "fsverif/store_engine.py", "serves_properties": ["C01","C02","C04","C05","C06","C07","C11","C14"],
     "kind_free_text": "TLA+ StoreCore/Store model checked by TLC; exported graph walked on the real store/edge classes; traces validated by TLC (Trace_Store, Trace_StoreBind)"},
+   {"name": "factory", "path": "fsverif/factory_engine.py", "serves_properties": ["C03","C08","C09","C10","C15","C16","C17","C18","C20"],
+    "kind_free_text": "TLA+ Factory model (nodes as per-yield-segment actions over StoreCore edges, all same-instant interleavings) checked by TLC; configurations run on the real classes under a traced kernel; runs validated by TLC (Trace_Factory)"},
  ],
  "checks": checks,
  "not_applicable": na,
